@@ -90,6 +90,12 @@ PROPERTIES = {
                       "allow_unsupported": ["non-ASCII byte"]}],
         "bounds": {}, "outside": [], "assumptions": [],
     },
+    "C17": {
+        "level": "model_checking",
+        "quick": [{"match": "VerifH_c17_.*", "timeout": 900, "shards": {"VerifH_c17_scan_step": 4, "VerifH_c17_full_iteration": 6}, "sharddepth": 8}],
+        "thorough": [{"match": "VerifH_c17_.*", "timeout": 3000, "shards": {"VerifH_c17_scan_step": 6, "VerifH_c17_full_iteration": 8}, "sharddepth": 8}],
+        "bounds": {}, "outside": [], "assumptions": [],
+    },
     "C18": {
         "level": "model_checking",
         "quick": [{"match": "VerifH_c18_.*", "timeout": 500,
